@@ -7,7 +7,9 @@
    and turns of that queue (one event each). *)
 From Coq Require Import ZArith List Bool.
 Import ListNotations.
+Require Import Verif.gen.BananaGen Verif.lib.Recv.
 Require Import Verif.gen.RequestsGen Verif.lib.Requests Verif.lib.RequestsProofs.
+Require Import Verif.lib.AnswerRecv Verif.lib.AnswerRecvProofs.
 Local Open Scope Z_scope.
 
 (* "nothing fires twice": for every interleaving, every Deferred has been fired at most once *)
@@ -143,3 +145,163 @@ Theorem C03_foreign_event_changes_no_request : forall ops r q,
   evq (step (run ops) Turn) = q.
 Proof. exact foreign_event_changes_no_request. Qed.
 Print Assumptions C03_foreign_event_changes_no_request.
+
+(* "fires ... with the method's result, with the remote failure, with a Violation": what an answer / error / Violation for a
+   pending request id DOES: that request fires with exactly that outcome and leaves the table; every other call, every other
+   table entry, the eventual queue and the connection state are unchanged (`resolves`, lib/RequestsProofs.v) *)
+Theorem C03_answer_fires_result : forall ops rid h, tbl_find rid (table (run ops)) = Some h ->
+  resolves (run ops) (step (run ops) (Answer rid)) h rid OResult.
+Proof. exact answer_fires_result. Qed.
+Print Assumptions C03_answer_fires_result.
+
+Theorem C03_error_fires_remote_failure : forall ops rid h, tbl_find rid (table (run ops)) = Some h ->
+  resolves (run ops) (step (run ops) (Error rid)) h rid ORemoteError.
+Proof. exact error_fires_remote_failure. Qed.
+Print Assumptions C03_error_fires_remote_failure.
+
+Theorem C03_violation_fires_violation : forall ops rid h, tbl_find rid (table (run ops)) = Some h ->
+  resolves (run ops) (step (run ops) (AnswerViolation rid)) h rid OViolation.
+Proof. exact violation_fires_violation. Qed.
+Print Assumptions C03_violation_fires_violation.
+
+(* fail(why) / complete(res) on a pending request object -- the serialization failure of the call's own arguments
+   (Fail h OSendFail), an answer that finishes late -- fires it with exactly that outcome *)
+Theorem C03_fail_on_pending_fires : forall ops rid h o, In (rid, h) (table (run ops)) ->
+  resolves (run ops) (step (run ops) (Fail h o)) h rid o /\
+  resolves (run ops) (step (run ops) (Complete h)) h rid OResult.
+Proof. exact fail_on_pending_fires. Qed.
+Print Assumptions C03_fail_on_pending_fires.
+
+(* ... and every callRemote that has not fired can be reached that way: it is in the table under its id *)
+Theorem C03_pending_is_in_table : forall ops h c, get (run ops) h = Some c -> c_twoway c = true -> c_fires c = [] ->
+  In (c_rid c, h) (table (run ops)) /\ tbl_find (c_rid c) (table (run ops)) = Some h.
+Proof. exact pending_is_in_table. Qed.
+Print Assumptions C03_pending_is_in_table.
+
+(* ===================================================================================================================
+   "... and connection loss at any byte position": the caller's RECEIVE PATH from bytes to the request table
+   (lib/AnswerRecv.v: Banana.dataReceived/handleData, handleOpen/Token/Close/Violation, PBRootUnslicer, AnswerUnslicer,
+   ErrorUnslicer acting on the state above).  A history `js` is any finite list of operations (JOp, as above) and received
+   byte chunks (JData), in any order.  What the result constraint and the unslicers BELOW an answer / error decide for a
+   token -- accept, Violation, BananaError, result not ready yet -- is the oracle (taste, after): every theorem holds for
+   every oracle, i.e. for every schema and every content of the answers. *)
+Section Bytes.
+Variable C : Type.
+Variable taste : C -> utop -> bool -> Z -> Z -> ck.
+Variable after : C -> utop -> bool -> Z -> Z -> list Z -> dres * C.
+Notation jrun := (jrun C taste after).
+Notation jinit := (jinit C).
+Notation jst := (jst C).
+
+(* received bytes act on the requests only through complete() / fail() of lib/Requests.v: the request state after any
+   history is `run` of the operations the history performed (issued from outside, or caused by the bytes), in order *)
+Theorem C03_bytes_refine_operations : forall cs voc js,
+  jst (fst (jrun (jinit cs voc) js)) = run (snd (jrun (jinit cs voc) js)).
+Proof. exact (bytes_refine_operations C taste after). Qed.
+
+(* "nothing fires twice", with any bytes in any chunks between any operations *)
+Theorem C03_bytes_at_most_once : forall cs voc js h c,
+  get (jst (fst (jrun (jinit cs voc) js))) h = Some c -> (List.length (c_fires c) <= 1)%nat.
+Proof. exact (bytes_at_most_once C taste after). Qed.
+
+(* "... or fires after having fired", under any continuation including further bytes *)
+Theorem C03_bytes_first_outcome_is_final : forall cs voc js1 js2 h c o,
+  get (jst (fst (jrun (jinit cs voc) js1))) h = Some c -> c_fires c = [o] ->
+  exists c', get (jst (fst (jrun (jinit cs voc) (js1 ++ js2)))) h = Some c' /\ c_fires c' = [o].
+Proof. exact (bytes_first_outcome_is_final C taste after). Qed.
+
+Theorem C03_bytes_table_iff_pending : forall cs voc js rid,
+  In rid (map fst (table (jst (fst (jrun (jinit cs voc) js))))) <->
+  exists h c, get (jst (fst (jrun (jinit cs voc) js))) h = Some c /\ c_tracked c = true /\ c_rid c = rid /\ c_fires c = [].
+Proof. exact (bytes_table_iff_pending C taste after). Qed.
+
+(* "connection loss at any byte position": after ANY history -- the answer stream cut after any number of bytes, leaving the
+   tokenizer and the unslicers in whatever state -- connectionLost/shutdown and the turns of the eventual queue leave no
+   request pending and every callRemote fired exactly once *)
+Theorem C03_bytes_cut_anywhere_then_loss : forall cs voc js r,
+  let s1 := jst (fst (jrun (jinit cs voc) (js ++ [JOp (Finish r)]))) in
+  let s2 := run_from s1 (repeat Turn (List.length (evq s1))) in
+  disconnected s2 = true /\ evq s2 = [] /\ table s2 = [] /\
+  forall h c, get s2 h = Some c -> c_twoway c = true -> List.length (c_fires c) = 1%nat.
+Proof. exact (bytes_cut_anywhere_then_loss C taste after). Qed.
+
+Theorem C03_bytes_drained_after_loss : forall cs voc js,
+  let s := jst (fst (jrun (jinit cs voc) js)) in
+  disconnected s = true -> evq s = [] ->
+  table s = [] /\ forall h c, get s h = Some c -> c_twoway c = true -> List.length (c_fires c) = 1%nat.
+Proof. exact (bytes_drained_after_loss C taste after). Qed.
+
+(* "for all chunkings": after any history, a stretch of received data acts as its concatenation (state and operations) *)
+Theorem C03_bytes_chunk_independent : forall cs voc js chunks1 chunks2,
+  concat chunks1 = concat chunks2 ->
+  let s := fst (jrun (jinit cs voc) js) in
+  jrun s (map JData chunks1) = jrun s (map JData chunks2).
+Proof. exact (bytes_chunk_independent C taste after). Qed.
+
+(* one token performs at most one operation: complete() or fail() of the request bound to the Answer/ErrorUnslicer on the
+   stack, which is then gone (tokens without a body; accepted tokens with a body; tokens rejected by the taste) *)
+Theorem C03_token_emits_at_most_one : forall c ty hdr,
+  emits_ok C c (step_nobody_a C taste after c ty hdr) /\
+  (forall body, emits_ok C c (finish_body_a C after c ty hdr body)) /\
+  (forall c' es, begin_body_a C taste c ty hdr = BReject c' es -> emits_ok C c (c', es)).
+Proof.
+  intros c ty hdr. split; [exact (token_emits_at_most_one_nobody C taste after c ty hdr)|].
+  split; [exact (token_emits_at_most_one_body C after c ty hdr)|exact (token_emits_at_most_one_rejected C taste c ty hdr)].
+Qed.
+
+(* while a rejected sequence is being discarded nothing happens to any request *)
+Theorem C03_discarding_emits_nothing : forall c ty hdr, 0 < a_disc c ->
+  snd (step_nobody_a C taste after c ty hdr) = [] /\
+  (forall c' es, begin_body_a C taste c ty hdr = BReject c' es -> es = []) /\
+  begin_body_a C taste c ty hdr <> BAccept.
+Proof. exact (discarding_emits_nothing C taste after). Qed.
+
+(* once an exception has escaped handleData (connectionAbandoned) no byte does anything *)
+Theorem C03_abandoned_connection_is_inert : forall c ty hdr, a_dead c = true ->
+  step_nobody_a C taste after c ty hdr = (c, []) /\ begin_body_a C taste c ty hdr = BReject c [].
+Proof. exact (abandoned_connection_is_inert C taste after). Qed.
+
+(* the request-id token binds the unslicer to the request the table holds under that id, or -- unknown id -- fires nothing
+   and starts discarding the sequence *)
+Theorem C03_reqid_token_binds_through_table : forall c ty hdr body rid err oc, a_top c = UWantId err oc ->
+  match tbl_find rid (table (a_st c)) with
+  | Some h => handle_token C after c ty hdr body (VInt rid) = (set_top C c (UBody err h false oc []), [])
+  | None => snd (handle_token C after c ty hdr body (VInt rid)) = [] /\
+            a_top (fst (handle_token C after c ty hdr body (VInt rid))) = URoot /\
+            a_disc (fst (handle_token C after c ty hdr body (VInt rid))) = a_disc c + 1
+  end.
+Proof. exact (reqid_token_binds_through_table C after). Qed.
+
+(* the functional half at the byte level: the CLOSE of a complete answer completes the bound request, the CLOSE of an error
+   fails it with the remote failure, a Violation anywhere below an answer / error fails exactly the bound request *)
+Theorem C03_close_of_answer_completes : forall c h oc, a_top c = UBody false h true oc [] ->
+  fst (after (a_cs c) (a_top c) false tok_CLOSE oc []) <> DLate ->
+  snd (handle_close C after c oc) = [Complete h] /\ a_top (fst (handle_close C after c oc)) = URoot /\
+  a_st (fst (handle_close C after c oc)) = step (a_st c) (Complete h).
+Proof. exact (close_of_answer_completes C after). Qed.
+
+Theorem C03_close_of_error_fails : forall c h oc, a_top c = UBody true h true oc [] ->
+  snd (handle_close C after c oc) = [Fail h ORemoteError] /\ a_top (fst (handle_close C after c oc)) = URoot /\
+  a_st (fst (handle_close C after c oc)) = step (a_st c) (Fail h ORemoteError).
+Proof. exact (close_of_error_fails C after). Qed.
+
+Theorem C03_violation_fails_bound_request : forall c err h hv oc kids io ic, a_top c = UBody err h hv oc kids ->
+  snd (violation C c io ic) = [Fail h OViolation] /\ a_top (fst (violation C c io ic)) = URoot /\
+  a_st (fst (violation C c io ic)) = step (a_st c) (Fail h OViolation) /\
+  a_disc (fst (violation C c io ic)) = a_disc c + (if io then 1 else 0) + lenZ kids + 1 - (if ic then 1 else 0).
+Proof. exact (violation_fails_bound_request C). Qed.
+End Bytes.
+Print Assumptions C03_close_of_answer_completes.
+Print Assumptions C03_close_of_error_fails.
+Print Assumptions C03_violation_fails_bound_request.
+Print Assumptions C03_bytes_refine_operations.
+Print Assumptions C03_bytes_at_most_once.
+Print Assumptions C03_bytes_first_outcome_is_final.
+Print Assumptions C03_bytes_table_iff_pending.
+Print Assumptions C03_bytes_cut_anywhere_then_loss.
+Print Assumptions C03_bytes_drained_after_loss.
+Print Assumptions C03_bytes_chunk_independent.
+Print Assumptions C03_token_emits_at_most_one.
+Print Assumptions C03_discarding_emits_nothing.
+Print Assumptions C03_abandoned_connection_is_inert.
+Print Assumptions C03_reqid_token_binds_through_table.
